@@ -19,6 +19,7 @@ EXPLANATION = (
     'both loops and is awaited on every path that reaches the CONNECTED state in both generations. Arrival-time arithmetic is not decided. R6 the reset the '
     'watchdog asks for really ends in a new connection attempt (C07.R2 + C07.R3 re-evaluated).'
     ' Added later: R3 also demands that the monitoring loop waits (event, sleep, queue) only inside the armed asyncio.timeout - after a handled timeout the deadline is armed again at once.'
+    ' Rounds 7-8: R2 also: the interval sleep and the send are handed to one awaited gather (requests are `interval` apart whatever a send takes); R4: more stand-in messages for the matcher (a zero-length echo has the same id); R5 also: only shutdown() stops the heartbeat manager and only _message_received starts it (who-may-call).'
 )
 ASSUMPTIONS = ["asyncio.timeout(delay)/Timeout.reschedule(when) semantics as documented (delay None = no deadline)", "loop.time() is the clock asyncio.timeout uses"]
 FLOORS = {"C08.R1": 5, "C08.R2": 4, "C08.R3": 7, "C08.R4": 5, "C08.R5": 5, "C08.R6": 1, "C08.R7": 1, "C08.R8": 1}
